@@ -316,6 +316,39 @@ func init() {
 		back, e := runReader(comp, k, a[3] == "1", flateDec)
 		return fmt.Sprintf("comp=%s back=%s rerr=%s", hx(comp), back, e)
 	}
+	// indr <enc> <msg1> <msg2> <srckind> : ONE wsflate.Reader for two messages (Reset between them), sources of
+	// kind br (bytes.Reader: an io.ByteReader), bb (bytes.Buffer), bu (bufio.Reader), pl (plain 3-byte chunks)
+	ops["indr"] = func(a []string) string {
+		enc := func(msg []byte) []byte {
+			switch a[0] {
+			case "stored":
+				return encStored(msg, 65535)
+			case "stored7":
+				return encStored(msg, 7)
+			case "rle":
+				return encFixed(msg, true)
+			}
+			return encFixed(msg, false)
+		}
+		mk := func(comp []byte) io.Reader {
+			switch a[3] {
+			case "br":
+				return bytes.NewReader(comp)
+			case "bb":
+				return bytes.NewBuffer(append([]byte(nil), comp...))
+			case "bu":
+				return bufio.NewReaderSize(bytes.NewReader(comp), 16)
+			}
+			rd, _ := mkReader(comp, 3, "E")
+			return rd
+		}
+		c1, c2 := enc(unhx(a[1])), enc(unhx(a[2]))
+		fr := wsflate.NewReader(mk(c1), flateDec)
+		b1, e1 := io.ReadAll(fr)
+		fr.Reset(mk(c2))
+		b2, e2 := io.ReadAll(fr)
+		return fmt.Sprintf("comp1=%s comp2=%s back1=%s rerr1=%s back2=%s rerr2=%s", hx(c1), hx(c2), hx(b1), flErr(e1), hx(b2), flErr(e2))
+	}
 	ops["cf"] = func(a []string) string {
 		rsv, _ := strconv.Atoi(a[1])
 		op, _ := strconv.Atoi(a[2])
@@ -351,6 +384,8 @@ func init() {
 		return fmt.Sprintf("%s out=%s", flErr(err), hx(out))
 	}
 	register("C12", genC12)
+	register("C12", genReaderReuse)
+	register("C18", genReaderReuse)
 }
 
 func genC12(tier string, r *rng) {
@@ -479,6 +514,23 @@ func genC12(tier string, r *rng) {
 	for _, m := range []string{"notail", "wrongtail", "shorttail", "good"} {
 		for _, p := range [][]byte{{}, {1, 2, 3}, {0, 0, 0xff, 0xff}, r.bytes(20)} {
 			run(fmt.Sprintf("badc %s %s", m, hx(p)))
+		}
+	}
+}
+
+// genReaderReuse: a decompression reader reused for the next message behaves as new (C12 any source kind,
+// C18 reset-as-new).
+func genReaderReuse(tier string, r *rng) {
+	msgs := [][]byte{nil, []byte("a"), []byte("hello hello hello"), bytes.Repeat([]byte("z"), 300), r.bytes(40)}
+	for _, enc := range []string{"stored", "stored7", "fixed", "rle"} {
+		for _, kind := range []string{"br", "bb", "bu", "pl"} {
+			for i, m1 := range msgs {
+				m2 := msgs[(i+2)%len(msgs)]
+				if tier == "quick" && (i+len(enc)+len(kind))%2 == 0 {
+					continue
+				}
+				run(fmt.Sprintf("indr %s %s %s %s", enc, hx(m1), hx(m2), kind))
+			}
 		}
 	}
 }
